@@ -21,7 +21,10 @@
 //!   result, `y` stop_stream instead of finish, `k<n>` server calls shutdown(n) after the first accepted request and keeps
 //!   accepting, `s` split() the request stream, `d` client drops its SendRequest handle after the last request, `c` every client
 //!   request task uses its own clone of the SendRequest handle (with `d`: original and clones are dropped early),
-//!   `e` (exploration only, NOT the documented pattern) recv_data once and then recv_trailers.
+//!   `e` (exploration only, NOT the documented pattern) recv_data once and then recv_trailers,
+//!   `i` client driver awaits wait_idle(), `z` client calls shutdown(0) then wait_idle(), `N` h3::client::new /
+//!   server::Connection::new instead of the builders, `D` a datagram task (read_datagram loop answering with send_datagram;
+//!   `D:<hex>` events deliver QUIC datagrams), `O` (wts) open_uni / open_bi towards the client and write on them.
 //! * events: the SimQuic mini-language (`U<id>`, `B<id>`, `<id>:c:<hex>`, `<id>:F`, `<id>:R<code>`, `<id>:S<code>`,
 //!   `X<code>`, `T`, `I`) plus `~` = run the executor to quiescence now, and `<id>:z:<byte>x<count>` = a chunk of
 //!   `count` copies of one byte (for large inputs).  The executor also runs at the end of the script.
@@ -175,6 +178,16 @@ struct Opts {
     read_futures: Option<usize>,
     read_tokio: Option<usize>,
     wt_bidi: bool,
+    /// client driver: await wait_idle() instead of polling poll_close
+    wait_idle: bool,
+    /// client driver: shutdown(0) first, then wait_idle()
+    cli_shutdown: bool,
+    /// h3::client::new / h3::server::Connection::new instead of the builders
+    plain_new: bool,
+    /// a datagram task: read_datagram in a loop, every datagram is answered with send_datagram
+    datagrams: bool,
+    /// WebTransport server: open_uni and open_bi towards the client and write on them
+    wt_open: bool,
 }
 
 fn parse_opts(s: &str) -> Option<Opts> {
@@ -199,6 +212,11 @@ fn parse_opts(s: &str) -> Option<Opts> {
         read_futures: None,
         read_tokio: None,
         wt_bidi: false,
+        wait_idle: false,
+        cli_shutdown: false,
+        plain_new: false,
+        datagrams: false,
+        wt_open: false,
     };
     for w in s.split('+') {
         match w {
@@ -215,6 +233,11 @@ fn parse_opts(s: &str) -> Option<Opts> {
             "c" => o.clone_sr = true,
             "e" => o.early_trailers = true,
             "ab" => o.wt_bidi = true,
+            "i" => o.wait_idle = true,
+            "z" => o.cli_shutdown = true,
+            "N" => o.plain_new = true,
+            "D" => o.datagrams = true,
+            "O" => o.wt_open = true,
             _ => {
                 let num = |r: &str| r.parse::<u64>().ok();
                 if let Some(r) = w.strip_prefix('n') {
@@ -365,15 +388,64 @@ fn srv_builder(o: Opts) -> h3::server::Builder {
     b
 }
 
+type DgPair = (
+    h3_datagram::datagram_handler::DatagramReader<SimDgramRecv>,
+    h3_datagram::datagram_handler::DatagramSender<SimDgramSend, Bytes>,
+);
+
+/// read_datagram in a loop (waits on the connection); every datagram received is answered with send_datagram
+fn spawn_datagram_task(ex: &mut Exec, dq: Queue<DgPair>, log: &Log) {
+    let log = log.clone();
+    ex.spawn(async move {
+        let (mut rd, mut tx) = dq.take().await;
+        loop {
+            let r = call!(log, "g", "read_datagram", "c", rd.read_datagram());
+            match r {
+                Ok(d) => {
+                    log.end("g", "some");
+                    let mut p = d.into_payload();
+                    let n = p.remaining();
+                    let payload = p.copy_to_bytes(n);
+                    let r = tx.send_datagram(payload);
+                    log.begin("g", "send_datagram@n".into());
+                    match r {
+                        Ok(()) => log.end("g", "ok"),
+                        Err(e) => {
+                            let _ = e.to_string();
+                            log.end("g", "err:c:-:Datagram");
+                        }
+                    }
+                }
+                Err(e) => {
+                    log.end("g", &format!("err:{}", serr(&e)));
+                    break;
+                }
+            }
+        }
+        std::future::pending::<()>().await;
+        drop(tx);
+        String::new()
+    });
+}
+
 fn spawn_server(ex: &mut Exec, w: &Shared, o: Opts, log: &Log) {
     let queue: Queue<h3::server::RequestResolver<SimConn, Bytes>> = Queue::new();
+    let dq: Queue<DgPair> = Queue::new();
+    if o.datagrams {
+        spawn_datagram_task(ex, dq.clone(), log);
+    }
     {
         let w2 = w.clone();
         let log = log.clone();
         let q = queue.clone();
+        let dq = dq.clone();
         ex.spawn(async move {
             let b = srv_builder(o);
-            let r = call!(log, "a", "build", "wc", b.build::<SimConn, Bytes>(SimConn { world: w2 }));
+            let r = if o.plain_new {
+                call!(log, "a", "build", "wc", h3::server::Connection::<SimConn, Bytes>::new(SimConn { world: w2 }))
+            } else {
+                call!(log, "a", "build", "wc", b.build::<SimConn, Bytes>(SimConn { world: w2 }))
+            };
             let mut conn = match r {
                 Ok(c) => {
                     log.end("a", "ok");
@@ -384,6 +456,11 @@ fn spawn_server(ex: &mut Exec, w: &Shared, o: Opts, log: &Log) {
                     return String::new();
                 }
             };
+            if o.datagrams {
+                use h3_datagram::datagram_handler::HandleDatagramsExt;
+                let sid = h3::quic::StreamId::try_from(0u64).unwrap();
+                dq.put((conn.get_datagram_reader(), conn.get_datagram_sender(sid)));
+            }
             let mut accepted = 0usize;
             loop {
                 let r = call!(log, "a", "accept", "c", conn.accept());
@@ -569,6 +646,61 @@ fn spawn_wt_server(ex: &mut Exec, w: &Shared, mut o: Opts, log: &Log) {
                 }
             }};
         }
+        if o.wt_open {
+            use h3::quic::{SendStream as _, SendStreamUnframed as _};
+            let r = call!(log, "a", "open_uni", "wc", session.open_uni(session.session_id()));
+            match r {
+                Ok(mut s) => {
+                    log.end("a", "ok");
+                    let sid = s.send_id().into_inner();
+                    let mut data = Bytes::from_static(b"webtransport uni payload");
+                    let mut good = true;
+                    while good && data.has_remaining() {
+                        let r = call!(log, "a", "wt_write", format!("w{}", sid), poll_fn(|cx| s.poll_send(cx, &mut data)));
+                        match r {
+                            Ok(_) => log.end("a", "ok"),
+                            Err(e) => {
+                                let _ = e.to_string();
+                                log.end("a", "err:s:-:Quic");
+                                good = false;
+                            }
+                        }
+                    }
+                    if good {
+                        let r = call!(log, "a", "wt_finish", format!("w{}", sid), poll_fn(|cx| s.poll_finish(cx)));
+                        log.end("a", if r.is_ok() { "ok" } else { "err:s:-:Quic" });
+                    }
+                }
+                Err(e) => log.end("a", &format!("err:{}", serr(&e))),
+            }
+            let r = call!(log, "a", "open_bi", "wc", session.open_bi(session.session_id()));
+            match r {
+                Ok(mut s) => {
+                    log.end("a", "ok");
+                    let sid = s.send_id().into_inner();
+                    let mut data = Bytes::from_static(b"webtransport bidi payload");
+                    let mut good = true;
+                    while good && data.has_remaining() {
+                        let r = call!(log, "a", "wt_write", format!("w{}", sid), poll_fn(|cx| s.poll_send(cx, &mut data)));
+                        match r {
+                            Ok(_) => log.end("a", "ok"),
+                            Err(e) => {
+                                let _ = e.to_string();
+                                log.end("a", "err:s:-:Quic");
+                                good = false;
+                            }
+                        }
+                    }
+                    if good {
+                        let r = call!(log, "a", "wt_finish", format!("w{}", sid), poll_fn(|cx| s.poll_finish(cx)));
+                        log.end("a", if r.is_ok() { "ok" } else { "err:s:-:Quic" });
+                    }
+                    // keep the stream: dropping it is not part of the scenario
+                    std::mem::drop(s);
+                }
+                Err(e) => log.end("a", &format!("err:{}", serr(&e))),
+            }
+        }
         if o.wt_bidi {
             let r = call!(log, "a", "accept_bi", "c", session.accept_bi());
             match r {
@@ -606,10 +738,15 @@ fn spawn_wt_server(ex: &mut Exec, w: &Shared, mut o: Opts, log: &Log) {
 
 fn spawn_client(ex: &mut Exec, w: &Shared, o: Opts, log: &Log) {
     let queue: Queue<h3::client::SendRequest<SimOpener, Bytes>> = Queue::new();
+    let dq: Queue<DgPair> = Queue::new();
+    if o.datagrams {
+        spawn_datagram_task(ex, dq.clone(), log);
+    }
     {
         let w2 = w.clone();
         let log = log.clone();
         let q = queue.clone();
+        let dq = dq.clone();
         ex.spawn(async move {
             let mut b = h3::client::builder();
             b.send_grease(o.grease);
@@ -619,7 +756,11 @@ fn spawn_client(ex: &mut Exec, w: &Shared, o: Opts, log: &Log) {
             if o.wt {
                 b.enable_extended_connect(true).enable_datagram(true);
             }
-            let r = call!(log, "d", "build", "wc", b.build::<SimConn, SimOpener, Bytes>(SimConn { world: w2 }));
+            let r = if o.plain_new {
+                call!(log, "d", "build", "wc", h3::client::new::<SimConn, SimOpener>(SimConn { world: w2 }))
+            } else {
+                call!(log, "d", "build", "wc", b.build::<SimConn, SimOpener, Bytes>(SimConn { world: w2 }))
+            };
             let (mut conn, sr) = match r {
                 Ok(x) => {
                     log.end("d", "ok");
@@ -643,8 +784,22 @@ fn spawn_client(ex: &mut Exec, w: &Shared, o: Opts, log: &Log) {
                 // queue (dropping the last handle closes the connection locally)
                 q.put(sr);
             }
-            let e = call!(log, "d", "poll_close", "c", poll_fn(|cx| conn.poll_close(cx)));
-            log.end("d", &format!("err:{}", cerr(&e)));
+            if o.datagrams {
+                use h3_datagram::datagram_handler::HandleDatagramsExt;
+                let sid = h3::quic::StreamId::try_from(0u64).unwrap();
+                dq.put((conn.get_datagram_reader(), conn.get_datagram_sender(sid)));
+            }
+            if o.cli_shutdown {
+                let r = call!(log, "d", "shutdown", "wc", conn.shutdown(0));
+                log.end("d", &res_unit(&r, cerr));
+            }
+            if o.wait_idle || o.cli_shutdown {
+                let e = call!(log, "d", "wait_idle", "c", conn.wait_idle());
+                log.end("d", &format!("err:{}", cerr(&e)));
+            } else {
+                let e = call!(log, "d", "poll_close", "c", poll_fn(|cx| conn.poll_close(cx)));
+                log.end("d", &format!("err:{}", cerr(&e)));
+            }
             std::future::pending::<()>().await;
             drop(conn);
             String::new()
